@@ -84,6 +84,15 @@ def variants(rng, case, njobs_values):
         out.append(('extra-columns', c))
     else:
         out.append(('repeated', c))
+    # the same call made after a call with another threshold in the same process
+    c2 = copy.deepcopy(case)
+    other = copy.deepcopy(case)
+    if case['meas'] in ('OVERLAP', 'EDIT_DISTANCE'):
+        other['t'] = [case['t'][0] + 1, 1]
+    else:
+        other['t'] = [9, 10] if case['t'] != [9, 10] else [1, 2]
+    c2['_before'] = other
+    out.append(('after-call-with-other-threshold', c2))
     return out
 
 
@@ -96,6 +105,8 @@ def run_group(item):
     out = {'gid': gid, 'laws': [], 'api': [], 'splits': []}
     out['api'].append(record.abstract(base, obs, res, tabs, 0))
     for label, c in vars_:
+        if '_before' in c:
+            record.execute(c.pop('_before'))
         o2, r2, ev2, t2 = record.execute(c)
         rows = record.law_rows(c, r2, t2)
         out['api'].append(record.abstract(c, o2, r2, t2, 0))
